@@ -725,4 +725,63 @@ def dispInserts (o : DisplayOpts) : Nat → Disp → Disp
   | 0, s => s
   | k + 1, s => dispInserts o k (dispInsert o s)
 
+/-! ## `itstat_func_and_object`: the options merge (a pure function of the caller's dict) -/
+
+section
+variable {β : Type}
+
+/-- `d[k]` / `d.get(k)` on an insertion-ordered dictionary with distinct keys -/
+def dictGet (d : List (String × β)) (k : String) : Option β :=
+  match d with
+  | [] => none
+  | (k', v) :: r => if k' = k then some v else dictGet r k
+
+/-- `d[k] = v` -/
+def dictSet (d : List (String × β)) (k : String) (v : β) : List (String × β) :=
+  match d with
+  | [] => [(k, v)]
+  | (k', x) :: r => if k' = k then (k', v) :: r else (k', x) :: dictSet r k v
+
+/-- `d.update(u)` -/
+def dictUpdate (d u : List (String × β)) : List (String × β) := u.foldl (fun d p => dictSet d p.1 p.2) d
+
+/-- `d.pop(k, None)`: the value and the remaining dictionary -/
+def dictPop (d : List (String × β)) (k : String) : Option β × List (String × β) :=
+  (dictGet d k, d.filter (fun p => p.1 != k))
+
+/-- result of the options handling: the insertion function, the keyword arguments handed to
+    `IterationStats(**…)`, and the caller's `itstat_options` object afterwards -/
+structure ItstatSetup (β : Type) where
+  func : Option β
+  kwargs : List (String × β)
+  userAfter : Option (List (String × β))
+
+/-- `if itstat_options: default.update(itstat_options)` (`None` and `{}` are falsy) -/
+def mergedOptions (dflt : List (String × β)) (user : Option (List (String × β))) : List (String × β) :=
+  match user with
+  | some u => if u.isEmpty then dflt else dictUpdate dflt u
+  | none => dflt
+
+/-- `itstat_func_and_object(itstat_fields, itstat_attrib, itstat_options)`, the dictionary part:
+    `default = {"fields": …, "itstat_func": <generated>, "display": False}`;
+    `if itstat_options: default.update(itstat_options)` (`None` and `{}` are falsy);
+    `itstat_insert_func = default.pop("itstat_func", None)`; `IterationStats(**default)`.
+    Only the *local* dictionary is updated and popped: the caller's object is not touched. -/
+def itstatSetup (fields func displayOff : β) (user : Option (List (String × β))) : ItstatSetup β :=
+  let r := dictPop (mergedOptions [("fields", fields), ("itstat_func", func), ("display", displayOff)] user)
+    "itstat_func"
+  ⟨r.1, r.2, user⟩
+
+/-- building `n` optimisers one after the other from the same `itstat_options` object: the
+    setups obtained, and the object afterwards -/
+def itstatSetups (fields func displayOff : β) : Nat → Option (List (String × β)) →
+    List (ItstatSetup β) × Option (List (String × β))
+  | 0, u => ([], u)
+  | n + 1, u =>
+    let s := itstatSetup fields func displayOff u
+    let r := itstatSetups fields func displayOff n s.userAfter
+    (s :: r.1, r.2)
+
+end
+
 end Scico.Driver
